@@ -63,12 +63,18 @@ class Ctx:
         self.extra = {}
         # Set by replay so violations are not deduplicated.
         self.replaying = False
+        # Partial results are written here every few seconds, so that a
+        # shard that later hangs or dies still reports what it observed.
+        self.checkpoint_path = None
+        self._last_checkpoint = 0.0
         self._seen_violation_keys = collections.Counter()
 
     # -- observation ---------------------------------------------------
     def case(self, key, nontrivial=True, shape=None, sample=None):
         """Count one evaluated case. ``key`` identifies the abstract case."""
         self.evaluations += 1
+        if self.checkpoint_path and (self.evaluations & 15) == 0:
+            self.checkpoint()
         if nontrivial:
             self.nontrivial.add(h(key))
         if shape is not None:
@@ -93,6 +99,7 @@ class Ctx:
         repeats of the same mechanism inside one shard.
         """
         self.n_violations += 1
+        self._last_checkpoint = 0.0      # checkpoint soon after a violation
         if dedup is not None and not self.replaying:
             # Keep at most a few witnesses per (kind, mechanism); all are
             # counted.
@@ -105,6 +112,22 @@ class Ctx:
             v = {"kind": kind, "case": case, "detail": detail}
             v.update(extra)
             self.violations.append(v)
+
+    def checkpoint(self, force=False):
+        import json
+        import os
+        import time
+        now = time.time()
+        if not force and now - self._last_checkpoint < 4.0:
+            return
+        self._last_checkpoint = now
+        tmp = self.checkpoint_path + '.tmp'
+        try:
+            with open(tmp, 'w') as f:
+                json.dump(self.to_json(), f, ensure_ascii=False, default=repr)
+            os.replace(tmp, self.checkpoint_path)
+        except OSError:
+            pass
 
     def guard(self, case, kind_prefix="exception"):
         """Context manager: any exception inside becomes a violation."""
